@@ -249,6 +249,7 @@ func (n *RaftNode) Restore(rc io.ReadCloser) error {
 
 	n.loadState()
 	n.balloon.RefreshVersion()
+	n.balloon.RebuildCache()
 
 	n.log.Infof("Recovering finished, new version: %d", n.state.BalloonVersion)
 
